@@ -460,6 +460,11 @@ def malformed_cases():
     cases.append(("rebuild tau non-integer", reb(rebuild_tau=1.5)))
     cases.append(("rebuild tau non-integer (numpy float32)", reb(rebuild_tau=np.float32(2.5))))
     cases.append(("rebuilding shares not summing to 1", reb(reb_sectors={"build": 0.5, "manu": 0.3})))
+    cases.append(("rebuilding shares not summing to 1 (one share is NaN: the others add up to 1)", reb(reb_sectors={"build": 1.0, "manu": float("nan")})))
+    cases.append(("negative rebuilding share (the shares add up to 1)", reb(reb_sectors={"build": 1.5, "manu": -0.5})))
+    cases.append(("negative rebuilding factor", reb(factor=-1.0)))
+    cases.append(("NaN rebuilding factor", reb(factor=float("nan"))))
+    cases.append(("negative event monetary factor", reb(emf=-10**6)))
     cases.append(("unknown rebuilding sector", reb(reb_sectors={"nosuch": 1.0})))
     cases.append(("rebuilding sectors missing", reb(reb_sectors=None)))
 
